@@ -66,6 +66,23 @@ def judge_a(case: Dict[str, Any], ap: Dict[str, Any], af: Dict[str, Any]) -> Dic
         got = dec(ap["dump"])
         viol.append((sig, f"{model} <- {wire_txt}: {p['kind']} at '{p['path']}' ({p.get('detail')}) under "
                           f"{'both backends' if both else 'Pydantic'}; dump = {json.dumps(got, ensure_ascii=True)[:300]}"))
+    # the same through the JSON path (json.loads(model_dump_json(by_alias=True, exclude_none=True)))
+    for side, a in (("pydantic", ap), ("fallback", af)):
+        if not a.get("ok"):
+            continue
+        j = (a.get("json") or {}).get("exclude_none+by_alias") or {}
+        if "exc" in j:
+            viol.append(({"class": "json-dump-raised", "model": model, "backend": side},
+                         f"{model} <- {wire_txt}: model_dump_json(by_alias=True, exclude_none=True) raised under {side}: {j['exc']}"))
+        direct = {key(p) for p in (a.get("lossless") or [])}
+        for p in a.get("lossless_json") or []:
+            if key(p) in direct:
+                continue                                 # already reported for model_dump
+            sig = {"class": p["kind"], "model": p.get("model") or model, "member": p.get("member", c09.norm_path(p["path"])),
+                   "backend": side, "via": "model_dump_json"}
+            viol.append((sig, f"{model} <- {wire_txt}: {p['kind']} at '{p['path']}' ({p.get('detail')}) in "
+                              f"json.loads(model_dump_json(by_alias=True, exclude_none=True)) under {side}; JSON form = "
+                              f"{json.dumps(dec(j['value']), ensure_ascii=True)[:300]}"))
     deferred = []
     if F is None:
         deferred.append(("rejected-by-fallback", f"{model} <- {wire_txt}"))        # acceptance is C09's subject
@@ -159,10 +176,15 @@ def run(tier: str, only=None) -> core.Result:
     try:
         hello = {n: p.hello for n, p in pools.items()}
         a_ans = ask_all(pools, a_wire)
+        # the isolation cases go to the same processes afterwards: whatever they leave behind cannot reach the
+        # answers of part A, which are already collected
+        iso_wire = [{"op": "isolation", "target": c["target"], "wire": enc(c["wire"])} for c in a_cases]
+        iso_ans = ask_all(pools, iso_wire) if iso_wire else {}
     finally:
         for p in pools.values():
             p.close()
-    pools_history = {n: p.history_before for n, p in pools.items()}
+    pools_history = {n: (lambda i, p=p: p.history_before(i, 0)) for n, p in pools.items()}
+    iso_history = {n: (lambda i, p=p: p.history_before(i, 1)) for n, p in pools.items()}
     # every serialiser site is driven in a process of its own, so that what one driver instantiated
     # cannot influence the next
     b_ans = orderdep.per_config(CONFIGS, lambda cfg: [r[0] for r in workers.fresh_sequences(cfg, HANDLER, [[w] for w in b_wire])])
@@ -280,6 +302,46 @@ def run(tier: str, only=None) -> core.Result:
                     for sig, msg in j["violations"]:
                         report(sig, msg, {"part": "B", "site": s["site"], "variant": r["variant"], "backend": n})
 
+    # ---- mutation isolation: nothing mutable may be shared between two validated objects ----
+    iso_info: Dict[str, Any] = {"cases_per_backend": 0, "objects_with_mutated_defaults": 0, "violating_cases": 0}
+    if do_a:
+        iso_info["cases_per_backend"] = len(iso_wire)
+        for i, c in enumerate(a_cases):
+            cls = wiregen.resolve(c["target"])
+            model = wiregen.short(c["target"])
+            hit = False
+            for n in iso_ans:
+                a = iso_ans[n][i]
+                if "harness_exc" in a:
+                    res.harness_errors.append(f"worker exception (isolation) on {c['target']} {c['label']}: {a['harness_exc'][-400:]}")
+                    continue
+                if not a.get("ok"):
+                    continue
+                if n == "pydantic" and a.get("defaults_mutated"):
+                    iso_info["objects_with_mutated_defaults"] += 1
+                found = []
+                for sh in a.get("shared") or []:
+                    found.append(({"class": "mutable-object-shared-between-instances", "backend": n, "model": model,
+                                   "member": sh["path"], "type": sh["type"]},
+                                  f"{model} <- {json.dumps(c['wire'], ensure_ascii=True)[:240]}: two separate validations under {n} "
+                                  f"share the same {sh['type']} object at '{sh['path']}'"))
+                    break
+                if a.get("leaks"):
+                    found.append(({"class": "default-mutation-leaks", "backend": n, "model": model, "member": a["leaks"]["path"]},
+                                  f"{model} <- {json.dumps(c['wire'], ensure_ascii=True)[:240]}: under {n}, after the defaulted members of "
+                                  f"one validated object were mutated in place, validating the same wire object again gives a "
+                                  f"different dump at '{a['leaks']['path']}' {a['leaks'].get('exc', '')}"))
+                if found and wiregen.is_config_class(cls):
+                    for sig, msg in found:
+                        u = unjudged.setdefault(json.dumps(sig, sort_keys=True), {"cases": 0, "example": msg[:400]})
+                        u["cases"] += 1
+                    continue
+                for sig, msg in found:
+                    hit = True
+                    report(sig, msg, {"part": "isolation", "target": c["target"], "label": c["label"], "wire": enc(c["wire"])})
+            if hit:
+                iso_info["violating_cases"] += 1
+
     # ---- order of validation made explicit: ordered pairs of same-named classes, fresh workers ----
     pair_info: Dict[str, Any] = {"groups": {}, "ordered_pairs": 0, "answers_compared_with_alone": 0, "differences": 0}
     if do_a:
@@ -318,10 +380,12 @@ def run(tier: str, only=None) -> core.Result:
 
     # ---- determinism audit (fresh workers); a mismatch is explained before it is reported ----
     audit_total = audit_bad = audit_order = 0
+    audits_a = orderdep.per_config(CONFIGS, lambda cfg: workers.audit(cfg, HANDLER, a_wire, a_ans[cfg["name"]], AUDIT_MOD, cap=20000)) if a_wire else {}
+    audits_i = orderdep.per_config(CONFIGS, lambda cfg: workers.audit(cfg, HANDLER, iso_wire, iso_ans[cfg["name"]], AUDIT_MOD, cap=20000)) if iso_wire else {}
     for cfg in CONFIGS:
         n = cfg["name"]
         if a_wire:
-            a = workers.audit(cfg, HANDLER, a_wire, a_ans[n], AUDIT_MOD, cap=20000)
+            a = audits_a[n]
             audit_total += a["reasked"]
             audit_bad += a["mismatches"]
             for ex in orderdep.explain_audit_mismatches(cfg, HANDLER, a_wire, a_ans[n], pools_history[n], a):
@@ -338,6 +402,23 @@ def run(tier: str, only=None) -> core.Result:
                        {"part": "order", "backend": n, "target": a_cases[i]["target"], "label": a_cases[i]["label"],
                         "wire": enc(a_cases[i]["wire"]),
                         "history": [{"target": a_cases[h]["target"], "wire": enc(a_cases[h]["wire"])} for h in ex["history"]]})
+        if iso_wire:
+            a = audits_i[n]
+            audit_total += a["reasked"]
+            audit_bad += a["mismatches"]
+            if a["mismatches"] and not iso_info["violating_cases"]:
+                for ex in orderdep.explain_audit_mismatches(cfg, HANDLER, iso_wire, iso_ans[n], iso_history[n], a, cap=3):
+                    i = ex["index"]
+                    if ex["kind"] == "nondeterministic":
+                        res.harness_errors.append(f"nondeterministic isolation answer of the {n} worker for {a_cases[i]['target']} {a_cases[i]['label']}")
+                    else:
+                        audit_order += 1
+                        report({"class": "order-dependent-behaviour", "backend": n, "model": wiregen.short(a_cases[i]["target"]),
+                                "part": "isolation"},
+                               f"{wiregen.short(a_cases[i]['target'])}: the isolation answer under {n} depends on what the process "
+                               f"validated before: {orderdep.first_difference(ex['alone'], ex['after'])}",
+                               {"part": "isolation", "target": a_cases[i]["target"], "label": a_cases[i]["label"],
+                                "wire": enc(a_cases[i]["wire"])})
         if b_wire:
             again = b_again[n]
             for w, x, y in zip(reversed(b_wire), again, reversed(b_ans[n])):
@@ -351,7 +432,7 @@ def run(tier: str, only=None) -> core.Result:
     if do_a and len(status_a) < 2 and not res.harness_errors:
         res.harness_errors.append(f"vacuous part A: a single outcome {status_a}")
     cov = res.coverage
-    cov["evaluations"] = 2 * len(a_cases) + variants_total
+    cov["evaluations"] = 2 * len(a_cases) + variants_total + 2 * len(iso_wire)
     cov["distinct_nontrivial"] = len(distinct) + len(b_distinct)
     cov["part_A"] = {
         "cases_per_backend": len(a_cases), "outcomes": dict(sorted(status_a.items())), "distinct_spec_valid_objects": len(distinct),
@@ -367,6 +448,7 @@ def run(tier: str, only=None) -> core.Result:
     cov["audit_mismatches"] = audit_bad
     cov["audit_mismatches_explained_as_order_dependence"] = audit_order
     cov["same_name_pair_order"] = pair_info
+    cov["mutation_isolation"] = iso_info
     cov["configurations"] = {n: {k: v for k, v in h.items() if k in ("PYDANTIC_AVAILABLE", "MCP_FORCE_FALLBACK", "base_module_of_models")}
                              for n, h in hello.items()}
     samples: List[Any] = [{"part": "A", "target": c["target"], "label": c["label"], "wire": c["wire"]} for c in c09._spread(a_cases, 4)]
@@ -379,7 +461,8 @@ def run(tier: str, only=None) -> core.Result:
     cov["samples"] = samples
     cov["exhaustive"] = True
     cov["rule"] = (
-        "part A: every discovered McpPydanticBase subclass x vf.wiregen.wire_objects (as in C09: optional-member subsets / "
+        "part A: losslessness of model_dump and of the JSON path, plus mutation isolation (validate twice: no shared mutable object; "
+        "mutate every defaulted member in place, validate again: same dump), for every discovered McpPydanticBase subclass x vf.wiregen.wire_objects (as in C09: optional-member subsets / "
         "pairwise rows, every sample value per member, aliases populated, unknown members x-unknown and _meta) x {Pydantic, "
         "fallback}; part B: every function/method found by the AST walk x the variants its driver enumerates (every accepted "
         "wire object of every model class its parameter annotation admits, as instance and - where the annotation admits a "
@@ -392,6 +475,8 @@ def run(tier: str, only=None) -> core.Result:
         "numbers are compared by value (1 and 1.0 are the same JSON number); everything else exactly",
         "an object the fallback backend rejects although Pydantic accepts it is a backend disagreement (C09) and only counted here (fallback_only_losses_deferred_to_C09 / rejected-by-fallback); losses under either backend are reported here",
         "transport parameter classes (chuk_mcp.transports.*) are local configuration, not protocol models: driven, differences listed under unjudged_config_class_differences",
+        "mutation isolation: every validation is given its own freshly decoded wire object, so an object shared by two results cannot come from the input; immutable values (str, int, None, tuple) may be shared; the in-place mutations are undone after each case",
+        "the JSON path is json.loads(model_dump_json(by_alias=True, exclude_none=True)) parsed with the standard library",
         "part B judges names only: the produced JSON must not contain, at any depth, the Python attribute name of any aliased member (no generated input uses those words as data keys) and must contain the wire name of every aliased member the input populated",
         "the sites in send_message.py dump an *incoming* response for a log line / the caller; they are driven like the others",
         "serialisers reached only through code the AST walk cannot see (dynamic attribute names other than getattr(x, 'model_dump...')) are not discovered",
@@ -404,6 +489,21 @@ def replay_case(args: Dict[str, Any]) -> Dict[str, Any]:
 
     logging.disable(logging.CRITICAL)
     wiregen.discover()
+    if args["part"] == "isolation":
+        x = {"op": "isolation", "target": args["target"], "wire": args["wire"]}
+        ans = {cfg["name"]: workers.fresh_sequence(cfg, HANDLER, [x])[0] for cfg in CONFIGS}
+        viol = []
+        for n, a in ans.items():
+            for sh in (a.get("shared") or [])[:1]:
+                viol.append({"sig": {"class": "mutable-object-shared-between-instances", "backend": n,
+                                     "model": wiregen.short(args["target"]), "member": sh["path"], "type": sh["type"]},
+                             "msg": f"two validations share the {sh['type']} at {sh['path']}"})
+            if a.get("leaks"):
+                viol.append({"sig": {"class": "default-mutation-leaks", "backend": n, "model": wiregen.short(args["target"]),
+                                     "member": a["leaks"]["path"]}, "msg": f"dump changed at {a['leaks']['path']}"})
+        if wiregen.is_config_class(wiregen.resolve(args["target"])):
+            viol = []
+        return {"part": "isolation", "target": args["target"], "wire": dec(args["wire"]), "answers": ans, "violations": viol}
     if args["part"] == "order":
         cfg = [c_ for c_ in CONFIGS if c_["name"] == args["backend"]][0]
         x = {"op": "validate", "target": args["target"], "wire": args["wire"], "lossless": True}
